@@ -67,7 +67,7 @@ claim('C08', 'Lean 4 theorems on the ordered-map insert/drain model, on the time
 
 claim('C10', 'Lean 4 theorems on the ordered-map insert/drain model with key shape and ts_pass_filters regenerated from the source; printed-order correspondence against an independent evtx-crate dump',
       "Machine-checked: with key (timestamp, enumeration index) the output is the stable sort by creation time of the in-window records, each exactly once, ties in "
-      "enumeration order, window inclusive; counter-model for a key without the index. Tie: key/insert/pop_first/filter shapes re-read from evtxreader.rs every run; the binary "
+      "enumeration order, window inclusive; counter-model for a key without the index. The reader itself is modelled with facts regenerated by gen_evtx.py (parser settings incl. chunk-checksum validation off, both arms of analyze's record loop, next = pop_first, summary fields): unreadable records never drop or reorder readable ones, every chunk is read whatever its CRC (counter-model = seeded C10-d), reader counters and summary fields (EvtxReaderSpec). Tie: component evtxr (the real EvtxReader in-process on mutated copies of the sample vs the model fed an independent chunk-level parse); key/insert/pop_first/filter shapes re-read from evtxreader.rs every run; the binary "
       "is run on the shipped sample (out of order) and on copies with patched header timestamps (ties, disorder), plain and in every container, against an independent dump.",
       TB + "The evtx crate's parsing is trusted (shared by s4 and the dump); XML rendering not modelled.",
       "DESIGN.md §6 C10")
@@ -183,7 +183,7 @@ claim('C04', 'Lean 4 theorems on calendar arithmetic, the capture-normalisation 
       "consecutive digits, so the EZCHECK pre-checks never skip a matching line and find_datetime_in_line with its persisting cursors equals the loop without them (C04_ezcheck_sound, C04_ezcheck_transparent); "
       "for the RFC 3339 row capture is proved end to end for every field value (C04_rfc3339_search, C04_rfc3339_end_to_end). For 168 of the 173 rows the capture half is proved over catalogues derived AUTOMATICALLY from the regenerated AST (RegexAuto: per item every symbolic word, a greedy-first policy, right-to-left pruning to determinate entries; soundness by construction, no per-row input): for every valid selection of words and admissible tail the leftmost-first matcher matches at 0, stops after the words, and every named group spans the word of its item (C04_rowN_search, N in 0..64, 70..172; one decide +kernel per row pins the catalogue digest, so a changed pattern breaks it); rows 65-69 (a greedy [^\n]+ before the stamp) are not covered; three padded-day / zone-prefix statements are proved false with witnesses replayed on the regex crate. The normalisation itself is REGENERATED (CapturesSpec): all of captures_to_buffer_bytes is translated into a statement list on every run and its interpreter is proved equal to the hand model (captures_skeleton_is_model), so the normalisation theorems hold of the source's program; nine mutants regenerated from edited source text (incl. both seeded fraction-padding changes) each falsify a named statement. Pattern selection is modelled (PatSelSpec): try order, first-match, the one row kept "
       "after analysis, stability for one-notation files, parse-cache transparency and clearing at year changes. Ties: rgx (every row: match, span, every group span vs the regex crate), time (regex+normalise+chrono "
-      "pipeline at boundary instants), patsel (real SyslineReader/SyslogProcessor). The join of the two halves is proved per row (RegexE2E*): for 163 rows, for every valid selection of the row's catalogue, admissible tail, fallback zone and fill year, the pipeline (regex search on the slice up to range_regex.end, capture, normalise, parse) yields the instant the captured words spell (C04_rowN_end_to_end; word shapes and calendar ranges are hypotheses on the selection), and for the rows whose longest rendering fits range_regex.end the length hypothesis is discharged by a kernel computation (C04_rowN_end_to_end_all); the rows that did NOT fit exposed three defects repaired in /repo (17a2b6aa, 992694e1: long month / weekday names cut the zone or the seconds; counter-models kept). Known findings F26, F27 (epoch rows; proved false).",
+      "pipeline at boundary instants), patsel (real SyslineReader/SyslogProcessor). The join of the two halves is proved per row (RegexE2E*): for 163 rows, for every valid selection of the row's catalogue, admissible tail, fallback zone and fill year, the pipeline (regex search on the slice up to range_regex.end, capture, normalise, parse) yields the instant the captured words spell (C04_rowN_end_to_end); the word-shape hypothesis and the catalogue-guaranteed part of the range hypothesis are DISCHARGED from each row's catalogue by one more kernel computation per row (C04_rowN_end_to_end_shaped, all 163 rows: only calendarOK remains - hour <= 23, zone hours/minutes in range, a date that exists - and outside it the parse fails and no message is produced, never a wrong instant: C04_zone_hour24_no_message, C04_feb29_nonleap_no_message, C04_feb30_no_message), and for the rows whose longest rendering fits range_regex.end the length hypothesis is discharged by a kernel computation (C04_rowN_end_to_end_all); the rows that did NOT fit exposed three defects repaired in /repo (17a2b6aa, 992694e1: long month / weekday names cut the zone or the seconds; counter-models kept). Known findings F26, F27 (epoch rows; proved false).",
       TB + "completeness/priority of the model matcher w.r.t. the regex crate (rows other than the RFC 3339 one) and chrono parse are validated differentially only; numeric-offset scanning is proved at instances.",
       "DESIGN.md §6 C04")
 
